@@ -630,11 +630,32 @@ def session_plus_expr(ctx, assumptions):
     return viols, cov
 
 
+def body_names(ctx, cov):
+    """names / types / labels (tokens with modifiers, hover with the effective schema's description): the 'dep' universe of MC_Body"""
+    dcases, nd = tlc_cases(ctx, "MC_Body.tla", "MC_Body_dep.cfg", "mcdepn")
+    p = ctx.run_hx(["body", "-cases", dcases, "-layouts", "2" if ctx.quick else "4", "-out", os.path.join(ctx.work, "bn"), "-seed", str(ctx.seed)])
+    nde = json.loads(p.stdout.strip().splitlines()[-1])["events"]
+    files = sorted(glob.glob(os.path.join(ctx.work, "bn.*.ndjson")))
+    bad, events = ctx.validate_traces("TraceBody.tla", "TraceBody.cfg", files)
+    viols = []
+    for b in bad:
+        if b["prop"] != ctx.prop:
+            continue
+        e = json.loads(open(b["file"]).read().splitlines()[b["l"] - 1])
+        viols.append({"what": b["what"], "replay": {"pipeline": "body", "case": {"schema": e["schema"], "doc": e["doc"], "cur": e["cur"], "feat": True}, "layout": e["layout"],
+                                                    "obs": {k: e["obs"][k] for k in ("ntoks", "nhov") if k in e["obs"]}}})
+    cov["evaluations"] += nde
+    cov["distinct_nontrivial"] += nd
+    cov["traces_validated_against_impl"] += len(files)
+    cov["trace_events"] += events
+    cov["rule"] += "; plus the 'dep' universe of MC_Body for attribute names, block types and labels (modifiers accumulated down the block path, descriptions of the effective schema, dependent bodies resolved fully / partially / not at all)"
+    return viols
+
+
 @pipeline("C12")
 def p_c12(ctx):
     viols, cov = session_plus_expr(ctx, [])
-    v3, cov3 = body_hover(ctx) if "body_hover" in globals() else ([], None)
-    viols += v3
+    viols += body_names(ctx, cov)
     finish(ctx, viols, cov, assumptions=["value hover: the element under the cursor is 'interpretable' iff ExprRules!TokensP assigns it a token; otherwise nothing or an enclosing element may be described",
                                          "regions the statement leaves open (arguments of unknown functions, literal collections under any(dynamic), one-of, known findings) are not asserted"])
 
@@ -642,6 +663,7 @@ def p_c12(ctx):
 @pipeline("C13")
 def p_c13(ctx):
     viols, cov = session_plus_expr(ctx, [])
+    viols += body_names(ctx, cov)
     finish(ctx, viols, cov, assumptions=["value tokens are compared as sets of (type, exact extent) outside the open regions of ExprRules!OpenTok / OpenIn / OpenKeyItems"])
 
 
